@@ -55,11 +55,15 @@ CHECKS = {
         'source type going up, and happens iff u <= jump probability. Width adaptation: for EVERY sequence of window rates in [0,1] every '
         'width stays positive and below its maximum, no key is lost and the balancing widths are carried unchanged. Tie: '
         '_new_sample_single (single-try and trans-dimensional) under replayed draw streams, conversion to a unit tensor, and '
-        '_modify_acceptance_rate over exhaustive rate-class sequences vs the executable model. Partial: the distributional half of '
-        '"proposals follow the truncated Gaussian" is a KS test.',
+        '_modify_acceptance_rate over exhaustive rate-class sequences vs the executable model. The proposal LAW is proved (Props/C06Law): for n '
+        'independent draws of any law nu, P(redraw loop returns a value in A) = (sum_{k<n} nu(out)^k) nu(in-range and candidate in A), the '
+        'stream is exhausted with probability nu(out)^n, the limit is the conditional law nu(. | in range); for standard normal draws and '
+        'the model\'s range predicates (|x|<=b, 0<=x<=1) the accepted value has density truncTerm(x, m, s, lo, hi) on [lo, hi] - the very '
+        'function the acceptance rule evaluates (gaussCdf via erf linked to Mathlib\'s gaussianReal), which integrates to one. Tested only: '
+        'that NumPy\'s generator delivers i.i.d. N(0,1) draws (KS test), and the joint law of the five parameters as a product.',
    note=TB + 'np.random is replaced by prepared streams during a call; reflecting options and the crack+DC proposal are not modelled. Repeated '
         'zero-rate windows square the ratio: positivity is over the reals (floating-point underflow after ~10 such windows is not modelled).',
-   technique='Lean 4 proof (stream-consuming samplers, invariant over all rate sequences) + differential correspondence; KS test for the law',
+   technique='Lean 4 proof (stream-consuming samplers, invariant over all rate sequences; measure-theoretic law of the redraw loop under product measures) + differential correspondence',
    design='5/C06'),
  'C07': dict(
    text='Theorems for EVERY accept/reject history (any learning length, window, chain length; single- and multiple-try events): nothing is '
@@ -68,10 +72,15 @@ CHECKS = {
         'state, accepted grows by one per acceptance, the DC count equals the number of DC entries, every entry is the start state or an '
         'accepted proposal with its own likelihood token, a DC-constrained run records only DCs, the run stops exactly when tried reaches '
         'the chain length (single-try: tried = C, C+1 entries). Tie: real iterate()/output() of four sampler classes driven through '
-        'exhaustive histories up to length 7 and random ones to 400, random and grid initialisation, vs the executable model. Partial: that '
-        'the chain samples the posterior follows from C05 and C06 by the standard MH argument and is tested, not proved.',
+        'exhaustive histories up to length 7 and random ones to 400, random and grid initialisation, vs the executable model. The posterior '
+        'is STATIONARY for the sampler (Props/C07Stationary): for any state space with reference measure, target density pi, proposal density q and '
+        'acceptance a <= 1 in detailed balance, the move-or-stay kernel (a genuine Markov kernel) leaves the measure with density pi invariant, for every '
+        'number of steps; finite-state matrix version; and the MODEL\'s acceptMH / transPdf with prior x likelihood satisfy the hypotheses (detailed '
+        'balance incl. -inf log-likelihoods from C05, proposal normalised: integral of truncTerm = 1, measurability) over the five Tape coordinates on the '
+        'source domain. Tested only: convergence/ergodicity (that a finite chain is close to the posterior) by posterior-agreement statistics; the '
+        'strike kernel is an abstract symmetric normalised kernel; multi-event and trans-dimensional kernels are not instantiated.',
    note=TB + 'Outcomes are steered through the log-likelihoods given to iterate(); sources/likelihoods are opaque tokens in the model.',
-   technique='Lean 4 proof (inductive invariant of the run state machine over all event lists) + event-history correspondence',
+   technique='Lean 4 proof (inductive invariant of the run state machine over all event lists; measure-theoretic invariance of the posterior under the Metropolis-Hastings kernel from detailed balance) + event-history correspondence',
    design='5/C07'),
  'C08': dict(
    text='Theorems over the reals: every sampled full tensor is a unit six-vector that depends on the Gaussian draw only through its direction, '
@@ -79,10 +88,14 @@ CHECKS = {
         'uniformity on the 6-sphere); the random triad is orthonormal for non-degenerate draws; the six-vector of an orthonormal eigen-system '
         'with unit-norm eigenvalues has unit norm; a sampled double-couple maps its axes to (1/sqrt2)a, 0, -(1/sqrt2)c (exact double-couple '
         'pattern); the DC and CLVD eigenvalue patterns have unit norm and zero trace. Tie: random_mt, random_dc, random_clvd, random_sample '
-        'under replayed Gaussian draws (np.random patched) vs the executable model, sample counts. Partial: uniformity / Haar orientation / '
-        'independence are KS and correlation tests on 1e5..4e5 draws.',
+        'under replayed Gaussian draws (np.random patched) vs the executable model, sample counts. The LAWS are proved (Props/C08Measure): for six '
+        'i.i.d. N(0,1) draws the law of the model\'s randomMt is invariant under every linear isometry of six-space, is a probability measure and is '
+        'carried by the unit sphere (the Gaussian has no atom at 0); for two independent Gaussian 3-vectors the random triad is almost surely '
+        'orthonormal, triad and sampled tensor are equivariant under every proper rotation R (det 1 => R(a x b) = Ra x Rb, proved), so the law of the '
+        'triad is invariant under R and the law of the sampled DC/CLVD tensor under M -> R M R^T, carried by the unit sphere. Tested only: NumPy '
+        'delivers i.i.d. normals; independence between calls; uniqueness of the invariant measure (invariant = uniform/Haar) is a classical fact not in Mathlib.',
    note=TB + 'NumPy RNG assumed i.i.d. standard normal. A second Gaussian vector parallel to the first to within rounding gives an ill-conditioned triad (probability ~0; not modelled beyond exact parallelism).',
-   technique='Lean 4 proof (normalisation equivariance, cross-product identities, eigen-system algebra) + differential correspondence; statistical tests for the distributional half',
+   technique='Lean 4 proof (normalisation equivariance, cross-product identities, eigen-system algebra; push-forward of the standard Gaussian measure: rotation invariance of the sampled laws) + differential correspondence',
    design='5/C08'),
  'C09': dict(
    text='Refinement proof for every history of batches (any sizes incl. 0, exact fits and several increments): the concrete store '
@@ -227,16 +240,20 @@ CHECKS = {
    technique='Lean 4 proof (list induction, permutation lemmas, fold invariant, filter limits) + differential correspondence',
    design='5/C15'),
  'C20': dict(
-   text='PARTIAL. The compiled extensions cannot be built here (no Cython). Instead the scalar kernels of the four .pyx sources are translated to Lean '
-        'definitions on every run (harness/gen_pyx.py; 27 scalar kernels (one of them, the acceptance rule, with its function-pointer arguments as function parameters) and 3 one-dimensional array reductions translated, the nested station / sample loops are listed as not translated) and 18 theorems '
-        'over the reals state that they equal the models of the pure-Python paths: Gaussian pdf/cdf (both modules), manual-polarity and '
-        'polarity-probability station likelihoods, the ratio density for modelled amplitudes of either sign, the inverse-variance step, the '
-        'per-station scale estimate, the proposal ratio for full-tensor and double-couple moves (= ratio of the Python transition '
-        'densities), uniform and flat prior ratios, the jump density, lune coordinates, Hudson tau-k and u-v, Tape parameters to six-vector. Tie: regenerated model (the '
-        'theorems are re-checked against what the .pyx says now) + evaluation of every translated kernel at Float against the real Python '
-        'functions (also for cN_SDR/csingleSDR_SDR, the dimension-jump prior ratios and the reductions c_ln_normalise / c_dkl, which have no theorem).',
-   note=TB + 'Partial: loops over stations / samples / tensors, log-domain reductions, binning, random generators, memory views, OpenMP and the C compiler are not modelled; the translator is trusted; nothing compiled is executed.',
-   technique='source-to-Lean translation of scalar kernels + Lean 4 equality proofs + differential evaluation against the Python paths',
+   text='PARTIAL. The compiled extensions cannot be built here (no Cython). Instead the four .pyx sources are translated to Lean definitions on every run '
+        '(harness/gen_pyx.py): 27 scalar kernels (the acceptance rule with its function-pointer arguments as function parameters), 3 one-dimensional reductions '
+        '(folds) and 18 array kernels with nested loops rendered one-to-one as Lean do-blocks over Array (the station loops of every likelihood, incl. the four '
+        'combined kernels with early exit at -inf; the location-sample / tensor loops with in-kernel log-sum-exp marginalisation; ln_prod, ln_combine, '
+        'ln_multipliers; the scatter-binning kernel get_multipliers with break/continue). 18 theorems over the reals state that the scalar kernels equal the '
+        'models of the pure-Python paths: Gaussian pdf/cdf (both modules), manual-polarity and polarity-probability station likelihoods (all amplitudes), the '
+        'ratio density for modelled amplitudes of either sign, the inverse-variance step, the per-station scale estimate, proposal ratios (= ratios of the '
+        'Python transition densities), prior ratios, the jump density, lune coordinates, Hudson tau-k and u-v, Tape parameters to six-vector. Tie: regenerated '
+        'model (theorems re-checked against what the .pyx says now) + evaluation of every translated kernel at Float against the real Python functions: the '
+        'array kernels against polarity_ln_pdf / polarity_probability_ln_pdf / amplitude_ratio_ln_pdf and their sums (1-4 stations per type with unequal counts, '
+        '1-3 location samples, 1-7 tensors incl. six, marginalised or not), and the binning kernel against parse_scatangle on written files. Found and fixed this way: '
+        'three defects of the .pyx (KNOWN_FINDINGS fixed: records).',
+   note=TB + 'Partial: the array kernels have a correspondence check but no equality theorem; *_gen variants (in-kernel random generation), relative-amplitude loops, RNG, OpenMP, memory-view plumbing of the def wrappers and the C compiler are not modelled; out-of-bounds reads are 0 in the model (undefined in C); the translator is trusted; nothing compiled is executed.',
+   technique='source-to-Lean translation of the .pyx kernels (scalar kernels, folds, nested-loop array kernels) + Lean 4 equality proofs for the scalar kernels + differential evaluation against the Python paths',
    design='5/C20'),
 }
 
